@@ -21,6 +21,7 @@ import (
 	"verif/harness/core"
 	"verif/harness/env"
 	"verif/harness/keys"
+	"verif/harness/reply"
 	"verif/harness/sim"
 	"verif/harness/spsim"
 	"verif/harness/verify"
@@ -197,14 +198,32 @@ func c18Harvest(r *core.Run, idx int, rng *rand.Rand) {
 	mustRegister(e.W, d, "a")
 	id := "id" + legalXMLString(rng, 6)
 	var call *env.Call
-	kind := idx % 7
+	kind := idx % 8
 	wantRelay, checkRelay := "", false
 	switch kind {
+	case 7: // the audience cannot be resolved at the callback: whatever is answered, it is ONE message
+		sc := randScenario(rng, fmt.Sprintf("MK%dx", idx), false)
+		sc.Host = ""
+		sc.S.AuthRequestID = id
+		if rng.Intn(3) == 0 {
+			sc.S.ACS = "" // delivery in the body
+		}
+		sc.install(e.W)
+		fk := []string{sim.FaultError, sim.FaultTimeout, sim.FaultTemporary, sim.FaultPoolClosed}[rng.Intn(4)]
+		e.W.Plan = func(tag, op string, occ int) string {
+			if op == "GetEntityIDByAppID" {
+				return fk
+			}
+			return ""
+		}
+		call = e.Do(env.Req{Path: env.PathLogin, Query: "id=" + url.QueryEscape(sc.S.ID)})
 	case 6: // a completed callback whose RelayState is full of characters that mean something in a query string or a form
 		sc := randScenario(rng, fmt.Sprintf("MK%dx", idx), false)
 		sc.Host = ""
 		sc.S.AuthRequestID = id
 		sc.S.RelayState = []string{"a&b=c", "x&SigAlg=http%3A%2F%2Fwww.w3.org%2F2000%2F09%2Fxmldsig%23rsa-sha1&Signature=AAAA", "1+1=2", "a+b/c==", "50%", "%41%zz", "q?x=1#frag;y", "sp ace\ttab", "ü&é+", "&", "+", "=", "&&==", "a=b&SAMLResponse=evil"}[rng.Intn(14)] + legalXMLString(rng, 2)
+		// consumer URLs in every legal shape a query can be appended to
+		sc.S.ACS = "https://mk" + fmt.Sprint(idx) + "x.sp.example/acs" + []string{"", "?", "?", "?a=1", "?a=1&b", "?flag", "/", "?x=%20y"}[rng.Intn(8)]
 		sc.install(e.W)
 		wantRelay, checkRelay = sc.S.RelayState, true
 		call = e.Do(env.Req{Path: env.PathLogin, Query: "id=" + url.QueryEscape(sc.S.ID)})
@@ -256,7 +275,7 @@ func c18Harvest(r *core.Run, idx int, rng *rand.Rand) {
 		q.Attrs = nil
 		call = e.Do(env.Req{Method: "POST", Path: env.PathAttr, Body: q.XML(rng), CT: "text/xml"})
 	}
-	class := []string{"sso_error", "logout", "attribute_query", "callback_unknown_id", "callback_signing_failure", "callback_key_fault", "callback_relay_state"}[kind]
+	class := []string{"sso_error", "logout", "attribute_query", "callback_unknown_id", "callback_signing_failure", "callback_key_fault", "callback_relay_state", "callback_entity_lookup_fault"}[kind]
 	r.Eval(class + core.Hex(id))
 	viol := func(clause, reason string) {
 		r.Violate(core.Violation{Clause: clause, Class: class, Reason: reason, Workload: wl, Index: idx, Case: map[string]any{"id": id}, Observed: call.Describe()})
@@ -287,6 +306,15 @@ func c18Harvest(r *core.Run, idx int, rng *rand.Rand) {
 			viol("value_changed", fmt.Sprintf("RelayState put in %q, RelayState that arrives (%s delivery) %q", wantRelay, call.D.Kind, got))
 		}
 		r.Count("harvested_relay_states", 1)
+	}
+	// one reply, one message
+	if n := len(reply.AllMessages(call.Rec)); n > 1 || call.D.Forms > 1 || call.D.XMLDocs > 1 {
+		viol("several_messages_in_one_reply", fmt.Sprintf("the reply carries %d messages (%d forms, %d XML declarations)", n, call.D.Forms, call.D.XMLDocs))
+		return
+	}
+	if checkRelay && call.D.Kind == "redirect" && call.D.XML == nil {
+		viol("message_not_recoverable", "the redirect reply of a completed callback carries no SAMLResponse parameter a URL parser can find: "+clipS(call.D.Location, 200)+" "+call.D.Err)
+		return
 	}
 	if call.D.XML == nil {
 		r.Count("harvest_no_message", 1)
@@ -323,7 +351,7 @@ func c18Harvest(r *core.Run, idx int, rng *rand.Rand) {
 		}
 		return
 	}
-	if kind == 4 || kind == 5 {
+	if kind == 4 || kind == 5 || kind == 7 {
 		// the message handed to the sender was a failure response: that, and nothing else, is what must arrive
 		if call.D.Success() || pm.HasNameID || pm.AttrValueCount > 0 {
 			viol("emitted_message_is_not_the_one_built", fmt.Sprintf("signing failed, yet the reply decodes to status %q with subject %q and %d attribute values", pm.StatusCode, pm.NameID, pm.AttrValueCount))
